@@ -39,6 +39,7 @@ def collect(args):
 
 
 def run_one(prop, name, patch, tier="quick", extra_env=None):
+    at_baseline = None
     tmp = tempfile.mkdtemp(prefix="pgmut-", dir="/tmp")
     copy = os.path.join(tmp, "repo")
     t0 = time.time()
@@ -46,6 +47,13 @@ def run_one(prop, name, patch, tier="quick", extra_env=None):
         shutil.copytree(REPO, copy, symlinks=True,
                         ignore=shutil.ignore_patterns(".git", "__pycache__", "*.pyc", ".pytest_cache"))
         r = subprocess.run(["patch", "-p1", "-s", "-d", copy, "-i", patch], capture_output=True, text=True)
+        ported = os.path.join(os.path.dirname(patch), "ported.diff")
+        if r.returncode != 0 and os.path.basename(patch) == "patch.diff" and os.path.exists(ported):
+            # the same defect re-expressed on the current code (later fix: commits touch the same lines)
+            shutil.rmtree(copy)
+            shutil.copytree(REPO, copy, symlinks=True,
+                            ignore=shutil.ignore_patterns(".git", "__pycache__", "*.pyc", ".pytest_cache"))
+            r = subprocess.run(["patch", "-p1", "-s", "-d", copy, "-i", ported], capture_output=True, text=True)
         if r.returncode != 0:
             # the seeded change was written against an older commit of /repo (later fix: commits touch
             # the same lines): rebuild the copy from that commit and apply it there
@@ -62,7 +70,7 @@ def run_one(prop, name, patch, tier="quick", extra_env=None):
             r = subprocess.run(["patch", "-p1", "-s", "-d", copy, "-i", patch], capture_output=True, text=True)
             if ar.returncode != 0 or r.returncode != 0:
                 return "PATCH-FAILED", ar.stderr + r.stdout + r.stderr, time.time() - t0
-            name = name + "@" + base
+            at_baseline = base
         env = dict(os.environ, VERIF_REPO_DIR=copy, VERIF_EVIDENCE_DIR=os.path.join(tmp, "ev"),
                    VERIF_REPLAY_DIR=os.path.join(tmp, "rp"), VERIF_MIN_S="10")
         env.update(extra_env or {})
@@ -70,7 +78,8 @@ def run_one(prop, name, patch, tier="quick", extra_env=None):
                            capture_output=True, text=True, env=env, timeout=3600)
         out = p.stdout + p.stderr
         if p.returncode == 1 and "VIOLATION property=%s" % prop in out:
-            return "CAUGHT", out, time.time() - t0
+            # at an older commit the violations may come from defects repaired since: weaker evidence
+            return ("CAUGHT" if not at_baseline else "CAUGHT@" + at_baseline[:7]), out, time.time() - t0
         if p.returncode == 0:
             return "MISSED", out, time.time() - t0
         return "ERROR(rc=%d)" % p.returncode, out, time.time() - t0
@@ -99,7 +108,7 @@ def main(args):
                 line = l[:260]
                 break
         print("%-8s %-4s %-44s %5.1fs %s" % (verdict, prop, name, dt, line))
-        if verdict != ("QUIET" if benign else "CAUGHT"):
+        if verdict != ("QUIET" if benign else "CAUGHT") and not verdict.startswith("CAUGHT@"):
             bad += 1
             if verdict.startswith("ERROR") or verdict == "PATCH-FAILED":
                 print(out[-1500:])
